@@ -168,7 +168,10 @@ def run_check(prop, tier, seed, replay=None, update_baseline=False):
         before = set(REG.task_keys())
         importlib.import_module(m)
         for k in set(REG.task_keys()) - before:
-            owner[k] = m
+            # the module whose own top-level code registered the task (a module of this property may merely import it,
+            # e.g. contracts.links); the worker then loads that module only -- plus contracts.links when the task is
+            # listed under this property through a link
+            owner[k] = REG.origin.get(k) or m
     tasks = [k for k in REG.task_keys() if prop in REG.task(k).prop]
     skipped = []
     if tier == 'quick':
